@@ -21,11 +21,13 @@ PLAN = dict(
     tiers=dict(
         quick=[det("rel", H, "cs-rel", 16, 320, 4, tso=True, time_cap=22),
                det("dbg", H, "cs-dbg", 16, 200, 4, tso=True, time_cap=16),
-               cmd("seq", RC, "plain", 1, ["150"], link_tbb=False, ldflags=["-lrapidcheck"]),
+               cmd("seq", RC, "plain", 1, ["150"], link_tbb=False, ldflags=["-lrapidcheck"], replay_tag="seq-"),
+               cmd("mock-runtime", "harness/c0506_mock_rc.cpp", "plain", 2, ["C06", "40000"], link_tbb=False, ldflags=["-lrapidcheck"], replay_tag="mock-"),
                tsan("C06", 8, 240)],
         thorough=[det("rel", H, "cs-rel", 16, 7000, 5, tso=True, time_cap=330),
                   det("dbg", H, "cs-dbg", 16, 3400, 5, tso=True, time_cap=200),
-                  cmd("seq", RC, "plain", 4, ["3000"], link_tbb=False, ldflags=["-lrapidcheck"]),
+                  cmd("seq", RC, "plain", 4, ["3000"], link_tbb=False, ldflags=["-lrapidcheck"], replay_tag="seq-"),
+                  cmd("mock-runtime", "harness/c0506_mock_rc.cpp", "plain", 8, ["C06", "600000"], link_tbb=False, ldflags=["-lrapidcheck"], replay_tag="mock-"),
                tsan("C06", 16, 600)],
     ),
 )
